@@ -391,11 +391,50 @@ theorem updateClient_ok {c c' : Chain} {now : UInt64} {chain : Bytes} {h : Heigh
   · split at hu
     · cases hu
     · split at hu
-      · cases hu
+      · split at hu
+        · cases hu
+        · split at hu
+          · cases hu
+          · injection hu with hu
+            exact ⟨_, hu.symm⟩
       · split at hu
         · cases hu
         · injection hu with hu
           exact ⟨_, hu.symm⟩
+
+/-- what an accepted update stored: for EVERY client kind the client table holds the updated client afterwards -/
+theorem updateClient_effect {c c' : Chain} {now : UInt64} {chain : Bytes} {h : Height} {root signer : Bytes} {ok : Bool}
+    (hu : updateClient c now chain h root signer ok = .ok c') :
+    ∃ cl, c.clients.get chain = some cl ∧ ok = true ∧ authRelayer c chain signer = true ∧
+      ((cl.kind = .tss ∧ signer = cl.tssAddr ∧ c'.clients.get chain = some { cl with tssAddr := root }) ∨
+       (cl.kind ≠ .tss ∧ c'.clients.get chain =
+          some { cl with latest := maxHeight cl.latest h, cons := cl.cons.set h root, processed := cl.processed.set h now })) := by
+  unfold updateClient at hu
+  split at hu
+  · cases hu
+  · rename_i hauth
+    split at hu
+    · cases hu
+    · rename_i cl hcl
+      refine ⟨cl, hcl, ?_⟩
+      split at hu
+      · rename_i hk
+        split at hu
+        · cases hu
+        · rename_i hs
+          split at hu
+          · cases hu
+          · rename_i hok
+            injection hu with hu
+            subst hu
+            exact ⟨by simpa using hok, by simpa using hauth, Or.inl ⟨hk, by simpa using hs, by simp [Tab.get_set]⟩⟩
+      · rename_i hk
+        split at hu
+        · cases hu
+        · rename_i hok
+          injection hu with hu
+          subst hu
+          exact ⟨by simpa using hok, by simpa using hauth, Or.inr ⟨hk, by simp [Tab.get_set]⟩⟩
 
 end TM.Xibc
 
